@@ -3,17 +3,14 @@
 import json, os
 HERE = os.path.dirname(os.path.dirname(os.path.abspath(__file__)))
 
-CLAIMED = {
- "C01": dict(
-   text="Lean 4 theorems (any commutative ring, any nesting depth, any admissible offset) that the model of "
-        "Circuit.add/_compute_circuit_unitary/__iter__ yields the ordered product of embedded leaf matrices, that "
-        "merge = nest, that barriers are neutral and that unitary leaves give a unitary circuit; the model is tied "
-        "to /repo by running random construction programs through both the real API and the Lean model.",
-   note="Proof is about the hand-written model; model=code is established by differential testing only. "
-        "Leaf matrices are inputs (their correctness is C14). Symbolic matrices are not covered.",
-   technique="Lean 4 proof by mutual structural induction over circuit trees + model/implementation correspondence",
-   ref="7/C01"),
-}
+def load_claimed():
+    import glob
+    out = {}
+    for f in sorted(glob.glob(os.path.join(HERE, "manifest.d", "C*.json"))):
+        out[os.path.basename(f)[:-5]] = json.load(open(f))
+    return out
+
+CLAIMED = load_claimed()
 
 PENDING_REASON = "check not built yet in this round (planned: Lean model + correspondence, see DESIGN.md section 7)"
 
